@@ -431,18 +431,33 @@ package value
 //@             (forall k string :: has(as(left, *HashMap).value, k) ==> has(as(right, *HashMap).value, k))
 //@   loop 2 invariant forall i int :: 0 <= i && i <= rangeindex#2 ==> has(as(right, *HashMap).value, as(left, *HashMap).keyOrder[i])
 
+//@ pred copied(e runtime.Element) = is(e, *Array) || is(e, *HashMap) || is(e, *Number) || is(e, *String) || is(e, *Bool)
 //@ func DuplicateValue
 //@   requires okElem(in)
 //@   modifies nothing
 //@   ensures okElem(result)
 //@   ensures is(in, *Object) || is(in, *Function) || is(in, *Null) || is(in, *GoValue) ==> result == in
-//@   loop 1 invariant newArr.base == 0 || fresh(newArr)
-//@   loop 2 invariant kvPairs.base == 0 || fresh(kvPairs)
+//@   ensures [same-kind] result.tag == in.tag
+//@   ensures [copies-are-new] copied(in) ==> fresh(result)
+//@   ensures [list-entries-are-copies] is(in, *Array) ==> len(as(result, *Array).value) == len(as(in, *Array).value) &&
+//@             (forall i int :: 0 <= i && i < len(as(in, *Array).value) ==> as(result, *Array).value[i].tag == as(in, *Array).value[i].tag && (copied(as(in, *Array).value[i]) ==> fresh(as(result, *Array).value[i])))
+//@   ensures [dictionary-entries-are-copies] is(in, *HashMap) ==> (forall k string :: has(as(in, *HashMap).value, k) ==> has(as(result, *HashMap).value, k) &&
+//@             as(result, *HashMap).value[k].tag == as(in, *HashMap).value[k].tag && (copied(as(in, *HashMap).value[k]) ==> fresh(as(result, *HashMap).value[k])))
+//@   loop 1 invariant (newArr.base == 0 || fresh(newArr)) && len(newArr) == rangeindex#1 + 1 && sameMem(as(in, *Array).value) &&
+//@             (forall i int :: 0 <= i && i <= rangeindex#1 ==> newArr[i].tag == as(in, *Array).value[i].tag && (copied(as(in, *Array).value[i]) ==> fresh(newArr[i])))
+//@   loop 2 invariant (kvPairs.base == 0 || fresh(kvPairs)) && len(kvPairs) == rangeindex#2 + 1 &&
+//@             (forall i int :: 0 <= i && i <= rangeindex#2 ==> kvPairs[i].Key == as(in, *HashMap).keyOrder[i] && kvPairs[i].Value.tag == as(in, *HashMap).value[kvPairs[i].Key].tag &&
+//@                (copied(as(in, *HashMap).value[kvPairs[i].Key]) ==> fresh(kvPairs[i].Value)))
 
 //@ func NewHashMap
 //@   modifies nothing
 //@   ensures fresh(result) && hmWF(result)
+//@   ensures [every-pair-stored] forall i int :: 0 <= i && i < len(kvPairs) ==> has(result.value, kvPairs[i].Key)
+//@   ensures [distinct-keys-keep-their-values] (forall i, j int :: 0 <= i && i < j && j < len(kvPairs) ==> kvPairs[i].Key != kvPairs[j].Key) ==>
+//@             (forall i int :: 0 <= i && i < len(kvPairs) ==> result.value[kvPairs[i].Key] == kvPairs[i].Value)
 //@   loop 1 invariant hmWF(hm) && fresh(hm) && fresh(hm.value) && (hm.keyOrder.base == 0 || fresh(hm.keyOrder)) && sameMem(kvPairs)
+//@   loop 1 invariant forall i int :: 0 <= i && i <= rangeindex ==> has(hm.value, kvPairs[i].Key)
+//@   loop 1 invariant (forall i, j int :: 0 <= i && i < j && j < len(kvPairs) ==> kvPairs[i].Key != kvPairs[j].Key) ==> (forall i int :: 0 <= i && i <= rangeindex ==> hm.value[kvPairs[i].Key] == kvPairs[i].Value)
 
 //@ func NewObject
 //@   requires model != nil
